@@ -126,6 +126,7 @@ type Agg struct {
 	Violations []ViolRec
 	KF         map[string]int
 	Deaths     int
+	CoverText  string
 }
 
 // ViolRec is a violation with its coordinates.
